@@ -137,7 +137,9 @@ func TestC14(t *testing.T) {
 	}
 	gens := []genf{
 		{"write", 10, func(r *hx.Rand) []string { return genWriteCase(r, run) }},
-		{"read", 4, genReadCase},
+		{"read", 4, func(r *hx.Rand) []string { return genReadCase(r, e.fl.strictR) }},
+		{"teardown", 1, func(r *hx.Rand) []string { return genTeardownCase(r, e.fl.strictR) }},
+		{"ac-client", 1, genACClientCase},
 		{"batch", 4, genBatchCase},
 		{"ac", 1, genACCase},
 		{"client", 3, genClientCase},
@@ -188,6 +190,24 @@ func canonical(e *env) {
 			b.hash, size, m5, size, s1, size, b.hash, size, m5, size)},
 		[]string{"#cfg 16 100", fmt.Sprintf("store %s %s %s", m5, size, hexs(b.data)),
 			fmt.Sprintf("cfm ; md5.a_b %s %s ; sha256.a_b %s %s ; md5.c %s %s", m5, size, b.hash, size, m5, size)})
+	// the Action Cache client and server back to back, once per digest function
+	for _, fn := range allFunctions {
+		h := strings.Repeat("5a", functionHashLen[fn]/2)
+		msg := hexs(genActionResult(hx.NewRand(1, "C14-ac", len(fn))))
+		cases = append(cases, []string{"#cfg 16 1000", fmt.Sprintf("cacput %s.- %s 11 %s", fn, h, msg),
+			fmt.Sprintf("cacget %s.- %s 11", fn, h), fmt.Sprintf("cacget %s.a %s 12", fn, h)})
+	}
+	// more torn-down compressed streams than the pools have slots, then ordinary compressed reads
+	if e.fl.strictR {
+		td := []string{"#cfg 4 100", storeLine(b)}
+		for i := 0; i < poolSlots+1; i++ {
+			td = append(td, fmt.Sprintf("read zstd %s %s 0 0 1", b.hash, size))
+		}
+		for _, off := range []int{0, 6, 23} {
+			td = append(td, fmt.Sprintf("read zstd %s %s %d 0 0", b.hash, size, off))
+		}
+		cases = append(cases, td)
+	}
 	// a streaming backend whose medium fails after k bytes, for every k; and stored
 	// objects that do not match their digest (too short, too long, same length)
 	obj := mkBlob([]byte("0123456789"))
